@@ -3,7 +3,7 @@
 From Coq Require Import ZArith NArith Bool List.
 From ZV.Gen Require Import Gen_Sizes.
 From ZV.Index Require Import Window Overflow.
-From ZV.Det Require Import ResetModel CwkspClean RowSalt OptStats MtPartition StreamPartition BlockState DictMode.
+From ZV.Det Require Import ResetModel CwkspClean RowSalt OptStats MtPartition StreamPartition BlockState DictMode ApiState RawFallback.
 Import ListNotations.
 Local Open Scope Z_scope.
 
@@ -132,6 +132,33 @@ Definition d_dict_mode (a : list Z) : list Z :=
   let pledged := if nthz a 4 <? 0 then CONTENTSIZE_UNKNOWN else nthz a 4 in
   [mode_code (dict_mode (mkCD (nthz a 0) (nthz a 1) (nthz a 2) (bz (nthz a 3))) pledged (nthz a 5) (bz (nthz a 6)))].
 
+(* 13: the session-level API state after every call (Det/ApiState.v).  args: triples (code a b):
+       1 ASet auth=a p=b | 2 ASetAll p=a | 3 ALoad d=a | 4 ARefCDict (a = 0: NULL, else Some (a, b)) | 5 APrefix d=a | 6 APledge
+       | 7 AResetSession | 8 AResetParams | 9 AStreamCall | 10 AStreamEnd | 11 ACompress2 | 12 ASimple | 13 AGenSeq
+   -> per call: accepted, stage != init, localDict.dict, localDict.cdict, cctx->cdict, prefixDict.dict, collectSequences *)
+Fixpoint triples (l : list Z) : list (Z * Z * Z) :=
+  match l with a :: b :: c :: t => (a, b, c) :: triples t | _ => [] end.
+Definition aop_of (t : Z * Z * Z) : aop :=
+  let '(c, a, b) := t in
+  if c =? 1 then ASet (bz a) b else if c =? 2 then ASetAll a else if c =? 3 then ALoad a
+  else if c =? 4 then ARefCDict (if a =? 0 then None else Some (a, b)) else if c =? 5 then APrefix a
+  else if c =? 6 then APledge else if c =? 7 then AResetSession else if c =? 8 then AResetParams
+  else if c =? 9 then AStreamCall else if c =? 10 then AStreamEnd else if c =? 11 then ACompress2
+  else if c =? 13 then AGenSeq else ASimple.
+Definition d_api (a : list Z) : list Z := atrace a_fresh (map aop_of (triples a)).
+
+(* 14: one block into [cap] bytes.  args: csize need srcSize strategy cap -> kind (0 refused, 1 raw, 2 compressed), bytes *)
+Definition d_emit (a : list Z) : list Z :=
+  let r := emit_block (nthz a 0) (nthz a 1) (nthz a 2) (nthz a 3) (nthz a 4) in [fst r; snd r].
+(* 15: ZSTD_minGain.  args: srcSize strategy *)
+Definition d_mingain (a : list Z) : list Z := [minGain (nthz a 0) (nthz a 1)].
+(* 16: the window after a dictionary / prefix of n bytes at D and the first input of m bytes at S, on a fresh window.
+   args: lit D n S m force -> dictLimit lowLimit (index of S) hasExtDict (end index) *)
+Definition d_contig (a : list Z) : list Z :=
+  let w1 := fst (window_update (window_init (nthz a 0)) (nthz a 1) (nthz a 2) false) in
+  let w2 := fst (window_update w1 (nthz a 3) (nthz a 4) (bz (nthz a 5))) in
+  [dictLimit w2; lowLimit w2; idx w2 (nthz a 3); zb (window_hasExtDict w2); idx w2 (nextSrc w2)].
+
 Definition dispatch (opcode : Z) (a : list Z) : list Z :=
   if opcode =? 1 then d_reset a
   else if opcode =? 2 then d_cwksp a
@@ -145,4 +172,8 @@ Definition dispatch (opcode : Z) (a : list Z) : list Z :=
   else if opcode =? 10 then d_ldm a
   else if opcode =? 11 then d_dict_consts a
   else if opcode =? 12 then d_dict_mode a
+  else if opcode =? 13 then d_api a
+  else if opcode =? 14 then d_emit a
+  else if opcode =? 15 then d_mingain a
+  else if opcode =? 16 then d_contig a
   else [].
